@@ -138,6 +138,16 @@ pub fn account(ev: &mut Eval, sc: &Scenario, res: &RunResult) -> String {
     if res.kernel.budget_exhausted {
         ev.count("budget_exhausted", 1);
     }
+    if res.kernel.bytes_moved > res.kernel.max_bytes {
+        ev.count("byte budget exhausted", 1);
+    }
+    // how close runs come to the byte budget (a measure of its margin)
+    if res.kernel.bytes_moved > res.kernel.max_bytes / 8 {
+        ev.count("run moved more than an eighth of its byte budget", 1);
+    }
+    if res.kernel.bytes_moved >= (64 << 20) {
+        ev.count("run moved 64 MiB or more", 1);
+    }
     {
         use crate::scenario::CallKind as K;
         let c = &res.kernel.gt.counts;
